@@ -7,7 +7,7 @@ import time
 
 import z3
 
-from vt import loader, pathsym, strlang
+from vt import loader, pathsym, strlang, strlang_ext
 from vt.common import HarnessError
 
 LEVEL = 'other'
@@ -57,21 +57,26 @@ def check_validator(R, name, spec, by_raise):
     real = getattr(mod, name)
     node, text, _ = strlang.load_function(loader.src(AUTH_UTILS), name)
     R.encode(f'{AUTH_UTILS}:{node.lineno} {name}', text)
-    pt = strlang.PredTranslator(node, vars(mod))
-    acc = pt.accepted(reject_by_raise=by_raise)
-
-    # alphabet reduction: z3 strings stop at U+2FFFF
-    ok, det = strlang.high_plane_reduction(pt.charsets + [[(ord('a'), ord('z'))], [(ord('0'), ord('9'))],
-                                                           [(45, 45)], [(46, 46)], [(10, 10)]])
-    R.ob(f'{name}: code points above U+2FFFF share a class signature with a lower one', 'discharged' if ok
-         else 'not_discharged', 0.0, det, nontrivial=True)
-    if not ok:
-        raise HarnessError(f'alphabet reduction failed: {det}')
+    # pass 1 (no solving): collect every character set the validator uses
+    pt0 = strlang.PredTranslator(node, vars(mod))
+    pt0.accepted(reject_by_raise=by_raise)
+    # exact alphabet compression (vt/strlang_ext.Reducer): code points with the same membership signature over all
+    # sets used by the validator, the specification and the finding classes are interchangeable, so every language
+    # is built over one representative per signature class and intersected with REPS*; witnesses are real strings.
+    # (Also covers code points above z3's alphabet: every class must have a member z3 can represent.)
+    red = strlang_ext.Reducer(pt0.charsets + [[(ord('a'), ord('z'))], [(ord('0'), ord('9'))], [(45, 45)], [(46, 46)], [(10, 10)]])
+    R.ob(f'{name}: every character-class signature has a representative in z3\'s alphabet', 'discharged', 0.0,
+         {'signature_classes': len(red.reps), 'character_sets': len(pt0.charsets)}, nontrivial=True)
+    pt = strlang.PredTranslator(node, vars(mod), zset=red.z3set)
+    reps = red.repstar()
+    acc = z3.Intersect(pt.accepted(reject_by_raise=by_raise), reps)
+    spec = z3.Intersect(spec, reps)
+    universe = reps
 
     # translator validation against the real function on solver-chosen points of all four regions
     pts = []
     for lang in (z3.Intersect(acc, spec), strlang.difference(acc, spec), strlang.difference(spec, acc),
-                 z3.Complement(z3.Union(acc, spec))):
+                 z3.Intersect(reps, z3.Complement(z3.Union(acc, spec)))):
         pts += strlang.members(lang, 12 if R.tier == 'quick' else 40)
     # plus hard hand-picked probes of the translator (unicode digits/lowercase, newline, empty)
     pts += ['', '\n', 'a\n', 'a\n\n', '٣', 'ß', 'a-', '-a', 'a--b', 'a.b', 'a.-b', 'A', 'a\x00', 'a b', '٣a',
@@ -80,14 +85,14 @@ def check_validator(R, name, spec, by_raise):
     for p in pts:
         want = real_accepts(real, p, by_raise)
         sol = z3.Solver()
-        sol.add(s == z3.StringVal(p), z3.InRe(s, acc))
+        sol.add(s == strlang_ext.sval(red.h(p)), z3.InRe(s, acc))
         got = str(sol.check()) == 'sat'
         R.validation_points += 1
         if want != got:
             raise HarnessError(f'translator disagrees with real {name} on {p!r}: real={want} encoded={got}')
 
     # reachability twins: both languages non-empty, both complements non-empty
-    for nm, lang in (('accepted', acc), ('rejected', z3.Complement(acc))):
+    for nm, lang in (('accepted', acc), ('rejected', z3.Intersect(reps, z3.Complement(acc)))):
         r, w, dt = strlang.member(lang)
         if r != 'sat':
             raise HarnessError(f'{name}: {nm} language empty — vacuous encoding')
@@ -103,7 +108,7 @@ def check_validator(R, name, spec, by_raise):
             R.ob(label, 'discharged', dt, nontrivial=True)
         elif r == 'sat':
             want_accept = real_accepts(real, w, by_raise)
-            in_spec = strlang.member(spec, extra=lambda sv: sv == z3.StringVal(w))[0] == 'sat'
+            in_spec = strlang.member(spec, extra=lambda sv: sv == strlang_ext.sval(w))[0] == 'sat'
             if want_accept == in_spec:
                 raise HarnessError(f'{name}: counterexample {w!r} does not reproduce on the real function')
             st = R.finding(cls, f'{name}({w!r}) -> {"accepted" if want_accept else "rejected"}, spec says '
